@@ -1,9 +1,12 @@
 import CedarVerif.Util.Sexp
 import CedarVerif.Cedar.SchemaSyntax
+import CedarVerif.Cedar.SchemaDecl
+import CedarVerif.Driver.Codec
 /-
 Driver ops of C09 (schema syntaxes):
   (sty print <tyjson>)                                   → (toks <tok>…)
   (sty parse (toks <tok>…))                              → (ok <tyjson>) | (err)
+  (sty parse-entity (toks <tok>…))                       → (ok (names …sorted) (in …) <shape tyjson> (tags <tyjson>)|(notags)) | (err)
   (sty resolve "ns" (commons "q"…) (entities "q"…) (actions "ns"…) entity|common|either "name")
                                                          → (common "q") | (entity "q") | (builtin "Long") | (undefined) | (shadow)
 tyjson ::= bool | long | string | (set T) | (record ("k" req|opt T)…) | (entity "A::B") | (eoc "A::B") | (ext "n") | (cref "A::B")
@@ -120,6 +123,19 @@ def handleSchemaSyntax (x : Sexp) : Option String :=
         if shadowing env then some "(shadow)"
         else some (encResolved env (resolveRef env (decNs ns) k (decQName name)))
     | _, _, _ => some "(bad-op)"
+  | .list [.atom "sty", .atom "parse-entity", .list (.atom "toks" :: ts)] =>
+    -- the harness lexer names `;` `=` `[` `]` semi / eq / lk / rk
+    let fix : Tok → Tok
+      | .other "semi" => .other ";" | .other "eq" => .other "=" | .other "lk" => .other "[" | .other "rk" => .other "]"
+      | t => t
+    match ts.mapM decTok with
+    | some ts => some (match parseEntityDecl (ts.map fix) with
+      | some d =>
+        "(ok (names" ++ String.join ((CedarVerif.sortStrings (d.names.map qstrS)).map (" " ++ ·)) ++ ") (in" ++
+          String.join (d.memberOf.map fun q => " " ++ qstrS (encQName q)) ++ ") " ++ encTyJson (toJson (.record d.attrs)) ++ " " ++
+          (match d.tags with | some t => s!"(tags {encTyJson (toJson t)})" | none => "(notags)") ++ ")"
+      | none => "(err)")
+    | none => some "(bad-op)"
   | .list (.atom "sty" :: _) => some "(bad-op)"
   | _ => none
 
